@@ -435,7 +435,13 @@ namespace occa {
 
       const std::string identifier = str();
 
-      int type = shallowPeek();
+      // An encoding prefix is directly followed by the quote: u8"foo" but not u8 "foo"
+      const char next = *fp.start;
+      const int type = ((next == '"')
+                        ? tokenType::string
+                        : ((next == '\'')
+                           ? tokenType::char_
+                           : tokenType::none));
       popAndRewind();
 
       // sizeof, new, delete, throw
